@@ -236,7 +236,11 @@ impl PreObjective {
 
 impl fmt::Display for PreObjective {
     fn fmt(&self, f: &mut fmt::Formatter<'_>) -> fmt::Result {
-        write!(f, "{} {}", self.objective_type, self.rhs)
+        match self.objective_type {
+            //a satisfiability objective has no body in the source form
+            OptimizationType::Satisfy => write!(f, "{}", self.objective_type),
+            _ => write!(f, "{} {}", self.objective_type, self.rhs),
+        }
     }
 }
 
